@@ -26,8 +26,8 @@ pub enum TagRes {
     Unjudgeable,
 }
 
-pub struct SeqModel<'a> {
-    pub p: &'a Project,
+pub struct SeqModel {
+    pub p: Project,
     memo: BTreeMap<String, TagRes>,
 }
 
@@ -48,9 +48,13 @@ pub fn apply_filter(groups: &[Group], filter: &Option<(char, Vec<String>)>) -> V
     }
 }
 
-impl<'a> SeqModel<'a> {
-    pub fn new(p: &'a Project) -> Self {
-        SeqModel { p, memo: BTreeMap::new() }
+impl SeqModel {
+    pub fn new(p: &Project) -> Self {
+        SeqModel { p: p.clone(), memo: BTreeMap::new() }
+    }
+    /// the project changed on disk (an edit step): forget every computed stage
+    pub fn invalidate(&mut self) {
+        self.memo.clear();
     }
     fn alias_of(&self, t: &Tag) -> (Vec<String>, Vec<String>) {
         match &t.alias {
@@ -83,7 +87,7 @@ impl<'a> SeqModel<'a> {
         if let Some(r) = self.memo.get(name) {
             return r.clone();
         }
-        let Some(t) = find_tag(self.p, name).cloned() else { return TagRes::Unjudgeable };
+        let Some(t) = find_tag(&self.p, name).cloned() else { return TagRes::Unjudgeable };
         let res = (|| {
             let words = match self.input_words(&t, oracle, probes) {
                 Ok(w) => w,
@@ -97,7 +101,13 @@ impl<'a> SeqModel<'a> {
             let mut stages = vec![words];
             for g in groups {
                 match oracle.run(&Req { rules: g, words: stages.last().unwrap().clone(), into: into.clone(), from: from.clone() }) {
-                    Ans::Ok(res) => stages.push(res),
+                    Ans::Ok(res) => {
+                        if res.iter().any(|w| w.chars().count() > 160) {
+                            // runaway growth along the pipeline: not judged (and not worth the time)
+                            return TagRes::Unjudgeable;
+                        }
+                        stages.push(res)
+                    }
                     Ans::Err(_) => {
                         *probes.entry("tag_with_library_error".into()).or_default() += 1;
                         return TagRes::LibErr;
@@ -111,18 +121,18 @@ impl<'a> SeqModel<'a> {
         res
     }
     /// root of the pipeline a tag belongs to, and the chain root -> tag
-    pub fn chain(&self, name: &str) -> Option<Vec<&'a Tag>> {
+    pub fn chain(&self, name: &str) -> Option<Vec<Tag>> {
         let mut v = Vec::new();
-        let mut cur = find_tag(self.p, name)?;
+        let mut cur = find_tag(&self.p, name)?;
         let mut guard = 0;
         loop {
-            v.push(cur);
+            v.push(cur.clone());
             guard += 1;
             if guard > 16 {
                 return None;
             }
             match &cur.parent {
-                Some(pn) => cur = find_tag(self.p, pn)?,
+                Some(pn) => cur = find_tag(&self.p, pn)?,
                 None => break,
             }
         }
@@ -170,8 +180,9 @@ fn fixed_point(words: &[String], into: &[String], oracle: &mut Oracle) -> bool {
     matches!(oracle.run(&Req { rules: vec![], words: words.to_vec(), into: into.to_vec(), from: vec![] }), Ans::Ok(v) if v == words)
 }
 
-pub fn predict(snap: &Snap, scn: &Scn, inv: &Inv, answer_yes: bool, oracle: &mut Oracle, model: &mut SeqModel, probes: &mut BTreeMap<String, u64>) -> Pred {
-    let p = &scn.project;
+pub fn predict(snap: &Snap, inv: &Inv, answer_yes: bool, oracle: &mut Oracle, model: &mut SeqModel, probes: &mut BTreeMap<String, u64>) -> Pred {
+    let p = model.p.clone();
+    let p = &p;
     match &inv.cmd {
         Cmd::Seq { path, tag, output, overwrite, output_all, .. } => {
             let dir = cli::resolve(&inv.cwd, path.as_deref().unwrap_or("."));
@@ -201,6 +212,7 @@ pub fn predict(snap: &Snap, scn: &Scn, inv: &Inv, answer_yes: bool, oracle: &mut
             let ow = overwrite.unwrap_or(answer_yes);
             Pred::Judged(Expect::Seq { tags, output: *output, output_all: *output_all, overwrite: ow, dir })
         }
+        Cmd::Edit { .. } => Pred::Unjudgeable,
         Cmd::ConvTag { path, tag, recurse, output } => {
             let dir = cli::resolve(&inv.cwd, path.as_deref().unwrap_or("."));
             if dir != PROJ {
@@ -561,8 +573,7 @@ fn probe(st: &mut Stats, k: &str) {
     *st.probes.entry(k.to_string()).or_default() += 1;
 }
 
-fn note_probes(st: &mut Stats, scn: &Scn, inv: &Inv, e: &Expect, before: &Snap) {
-    let p = &scn.project;
+fn note_probes(st: &mut Stats, p: &Project, inv: &Inv, e: &Expect, before: &Snap) {
     if let Some(b) = &p.bad {
         probe(st, &format!("bad_config_{b}"));
     }
@@ -619,24 +630,37 @@ fn note_probes(st: &mut Stats, scn: &Scn, inv: &Inv, e: &Expect, before: &Snap) 
 
 pub fn run_history(root: &str, scn: &mut Scn, oracle: &mut Oracle, st: &mut Stats) -> Option<Fail> {
     cli::write_tree(root, &scn.files, &scn.dirs);
-    let project = scn.project.clone();
-    let mut model = SeqModel::new(&project);
+    let mut model = SeqModel::new(&scn.project);
     let mut probes: BTreeMap<String, u64> = BTreeMap::new();
     let mut result = None;
     for i in 0..scn.invs.len() {
         let inv = scn.invs[i].clone();
+        if let Cmd::Edit { path, text, rules, words } = &inv.cmd {
+            // the user edits a project file between two invocations
+            let full = format!("{root}/{path}");
+            std::fs::write(&full, text).unwrap_or_else(|e| harness_error(&format!("edit {full}: {e}")));
+            if let Some((stem, g)) = rules {
+                model.p.rule_files.insert(stem.clone(), g.clone());
+            }
+            if let Some((stem, w)) = words {
+                model.p.word_files.insert(stem.clone(), w.clone());
+            }
+            model.invalidate();
+            probe(st, "project_edited_between_invocations");
+            continue;
+        }
         let before = cli::snapshot(root);
         let args = inv.cmd.argv();
         let answers: Vec<String> = (0..6).map(|_| inv.answer.clone()).collect();
         let stdin = cli::stdin_script(&answers);
-        let e = match predict(&before, scn, &inv, inv.answer == "y", oracle, &mut model, &mut probes) {
+        let e = match predict(&before, &inv, inv.answer == "y", oracle, &mut model, &mut probes) {
             Pred::Judged(e) => e,
             Pred::Unjudgeable => {
                 st.unjudgeable += 1;
                 break;
             }
         };
-        note_probes(st, scn, &inv, &e, &before);
+        note_probes(st, &model.p, &inv, &e, &before);
         let rec = cli::exec(root, &inv.cwd, &args, &stdin, inv.detrand, inv.dirseed, &vec![]);
         st.invocations += 1;
         st.ops += rec.ops.len() as u64;
@@ -716,7 +740,7 @@ pub fn run_history(root: &str, scn: &mut Scn, oracle: &mut Oracle, st: &mut Stat
                                         *overwrite = Some(true);
                                     }
                                 }
-                                let e2 = match predict(&after, scn, &inv2, true, oracle, &mut model, &mut probes) {
+                                let e2 = match predict(&after, &inv2, true, oracle, &mut model, &mut probes) {
                                     Pred::Judged(e2) => e2,
                                     Pred::Unjudgeable => {
                                         st.unjudgeable += 1;
